@@ -71,9 +71,11 @@ class Matrix:
         except Exception as e:  # noqa: BLE001
             return "ERR:" + type(e).__name__
 
-    def _template(self, envname, env, name, value, args, kwargs):
+    def _template(self, envname, env, name, value, args, kwargs, autoblock=False):
         parts = [f"a{i}" for i in range(len(args))] + [f"{k}=k_{k}" for k in kwargs]
         src = "{{ cap(v|" + name + ("(" + ", ".join(parts) + ")" if parts else "") + ") }}"
+        if autoblock:
+            src = "{% autoescape true %}" + src + "{% endautoescape %}"
         key = (envname, src)
         if key not in self.tcache:
             self.tcache[key] = env.from_string(src)
@@ -116,11 +118,14 @@ class Matrix:
                 res[f"{envname}/call_filter/{sp}"] = self._call(envname, env, self.tctx.get(envname) or env.from_string("").new_context(),
                                                                  name, fresh_value(), a, kw)
                 res[f"{envname}/template/{sp}"] = self._template(envname, env, name, fresh_value(), a, kw)
+                if self.autoescape_group and envname == "sync":
+                    # {% autoescape true %} inside a template of a plain environment: the volatile / block form of autoescape
+                    res[f"autoblk/template/{sp}"] = self._template(envname, env, name, fresh_value(), a, kw, autoblock=True)
         return res
 
     # ------------------------------------------------------------------ public
     def apply(self, prop_sig, name, value, args=(), names=(), expect=None, fresh_value=None, nontrivial=True,
-              same_across_groups=True, skip_async=False):
+              same_across_groups=True, skip_async=False, auto_same=False, auto_expect=None):
         """run one application in every way; report disagreements.  `expect`: None, or a canon text,
         or a callable returning the expected Python value (exceptions it raises are expected too)."""
         ctx = self.ctx
@@ -152,6 +157,18 @@ class Matrix:
                 bad = (f"the ways of applying the filter disagree: {items[0][1][0]} gives {items[0][0][:60]} but "
                        f"{items[1][1][0]} gives {items[1][0][:60]}")
                 break
+        if bad is None and "auto" in groups and (auto_same or auto_expect is not None):
+            auto = next(iter(groups["auto"]))
+            if auto_expect is not None:
+                try:
+                    target = canon(auto_expect())
+                except Exception as e:  # noqa: BLE001
+                    target = "ERR:" + type(e).__name__
+            else:
+                target = next(iter(groups.get("plain", {})), None)
+            if target is not None and auto != target:
+                bad = (f"with autoescape on the filter gives {auto[:70]}, "
+                       f"{'the definition gives' if auto_expect is not None else 'with autoescape off'} {target[:70]}")
         if bad is None and want is not None:
             plain = next(iter(groups.get("plain", {})), None)
             if plain is not None and plain != want:
